@@ -492,7 +492,9 @@ def r13_12(ctx: Ctx) -> RuleResult:
     from .model import parse_bracketed
 
     names = ["a", "Z9", "abc", "a_b", "x-y", "a1-", "\u00e9", "\u00e9t\u00e9", "a\u00e9", "\ud7ff\ue000", "\U0001f600", "a\U0001f600", "\U0001f600a", "a\U0010ffffz",
-             "b\uffff", "k-\U0001f600-9"]
+             "b\uffff", "k-\U0001f600-9",
+             # a name that starts with a keyword is not the keyword, whatever continues it
+             "in-stock", "or-else", "not-ok", "true-north", "null-value", "nil\u2603", "and\u20ac", "contains-x", "input", "order", "android", "Trueish"]
     rr = RuleResult("R13.12", "a bare name in brackets is the quoted name", floor=len(names) * 2)
     fn = ctx.repo.require_func("Parser.parse_selector_list")
     for name in names:
